@@ -147,6 +147,46 @@ theorem bitsToNat_intToBits_nonneg (n : Nat) (i : Int) (h0 : 0 ≤ i) (h1 : i < 
     exact_mod_cast this
   rw [Nat.mod_eq_of_lt hlt, Int.toNat_of_nonneg h0]
 
+/-- what WriteBigInt appends for a representable value: `w` bits whose two's complement value is `x` -/
+theorem bigInt_chunk (m : Nat) (i : Int) (b b' : Builder) (hd : -(2 ^ m : Int) ≤ i ∧ i < 2 ^ m)
+    (he : b.writeBigInt i (m + 1) = .ok b') :
+    ∃ sgn rest, b' = b.app (sgn :: rest) [] ∧ rest.length = m ∧ bitsToInt (sgn :: rest) = i := by
+  simp only [Builder.writeBigInt] at he
+  by_cases hm : m = 0
+  · subst hm
+    have hi : i = -1 ∨ i = 0 := by
+      have l2 : -(1 : Int) ≤ i := by simpa using hd.1
+      have h2 : i < (1 : Int) := by simpa using hd.2
+      omega
+    rcases hi with rfl | rfl
+    · have : b.writeBit true = .ok b' := by simpa using he
+      exact ⟨true, [], Builder.writeBits_ok this, rfl, by decide⟩
+    · have : b.writeBit false = .ok b' := by simpa using he
+      exact ⟨false, [], Builder.writeBits_ok this, rfl, by decide⟩
+  · rw [if_neg (by omega)] at he
+    simp only [Nat.add_sub_cancel] at he
+    by_cases hneg : i < 0
+    · rw [if_pos hneg] at he
+      obtain ⟨b1, hb1, he2⟩ := bind_ok_inv he
+      have hb1' := Builder.writeBits_ok hb1
+      simp only [Builder.writeBigUint] at he2
+      split at he2
+      · cases he2
+      · have hb := Builder.writeBits_ok he2
+        refine ⟨true, intToBits m (2 ^ m + i), by rw [hb, hb1', Builder.app_app]; simp, intToBits_length _ _, ?_⟩
+        rw [bitsToInt_cons, if_pos rfl, intToBits_length,
+          bitsToNat_intToBits_nonneg m (2 ^ m + i) (by omega) (by omega)]
+        ring
+    · rw [if_neg hneg] at he
+      obtain ⟨b1, hb1, he2⟩ := bind_ok_inv he
+      have hb1' := Builder.writeBits_ok hb1
+      simp only [Builder.writeBigUint] at he2
+      split at he2
+      · cases he2
+      · have hb := Builder.writeBits_ok he2
+        refine ⟨false, intToBits m i, by rw [hb, hb1', Builder.app_app]; simp, intToBits_length _ _, ?_⟩
+        rw [bitsToInt_cons, if_neg (by simp), bitsToNat_intToBits_nonneg m i (by omega) hd.2]
+
 theorem primOK_bigInt (n : Nat) : PrimOK (.bigInt n) := by
   intro v b b' hwf hd he
   cases v <;> simp only [Prim.inDom, Bool.false_eq_true] at hd
@@ -155,50 +195,13 @@ theorem primOK_bigInt (n : Nat) : PrimOK (.bigInt n) := by
   simp only [Prim.wf, Bool.and_eq_true, decide_eq_true_eq] at hwf
   obtain ⟨m, rfl⟩ : ∃ m, n = m + 1 := ⟨n - 1, by omega⟩
   simp only [Nat.add_sub_cancel] at hd
-  -- whatever the encoder wrote, it is `sign :: two's complement rest`
-  have key : ∃ sgn rest, b' = b.app (sgn :: rest) [] ∧ rest.length = m ∧ bitsToInt (sgn :: rest) = i := by
-    simp only [Prim.enc, Builder.writeBigInt] at he
-    by_cases hm : m = 0
-    · subst hm
-      have hi : i = -1 ∨ i = 0 := by
-        have l2 : -(1 : Int) ≤ i := by simpa using hd.1
-        have h2 : i < (1 : Int) := by simpa using hd.2
-        omega
-      rcases hi with rfl | rfl
-      · have : b.writeBit true = .ok b' := by simpa using he
-        exact ⟨true, [], Builder.writeBits_ok this, rfl, by decide⟩
-      · have : b.writeBit false = .ok b' := by simpa using he
-        exact ⟨false, [], Builder.writeBits_ok this, rfl, by decide⟩
-    · rw [if_neg (by omega)] at he
-      simp only [Nat.add_sub_cancel] at he
-      by_cases hneg : i < 0
-      · rw [if_pos hneg] at he
-        obtain ⟨b1, hb1, he2⟩ := bind_ok_inv he
-        have hb1' := Builder.writeBits_ok hb1
-        simp only [Builder.writeBigUint] at he2
-        split at he2
-        · cases he2
-        · have hb := Builder.writeBits_ok he2
-          refine ⟨true, intToBits m (2 ^ m + i), by rw [hb, hb1', Builder.app_app]; simp, intToBits_length _ _, ?_⟩
-          rw [bitsToInt_cons, if_pos rfl, intToBits_length,
-            bitsToNat_intToBits_nonneg m (2 ^ m + i) (by omega) (by omega)]
-          ring
-      · rw [if_neg hneg] at he
-        obtain ⟨b1, hb1, he2⟩ := bind_ok_inv he
-        have hb1' := Builder.writeBits_ok hb1
-        simp only [Builder.writeBigUint] at he2
-        split at he2
-        · cases he2
-        · have hb := Builder.writeBits_ok he2
-          refine ⟨false, intToBits m i, by rw [hb, hb1', Builder.app_app]; simp, intToBits_length _ _, ?_⟩
-          rw [bitsToInt_cons, if_neg (by simp), bitsToNat_intToBits_nonneg m i (by omega) hd.2]
-  obtain ⟨sgn, rest, hb, hlen, hval⟩ := key
+  simp only [Prim.enc] at he
+  obtain ⟨sgn, rest, hb, hlen, hval⟩ := bigInt_chunk m i b b' hd he
   refine ⟨sgn :: rest, [], hb, RTs.toRT ?_ _⟩
   intro s _
   have h1 := Slice.readBits_prepend s (sgn :: rest) [] []
   simp only [List.length_cons, hlen, List.append_nil] at h1
   simp only [Prim.dec, Slice.readBigInt, h1, bind, Outcome.bind, pure, hval, Slice.prepend_nil]
-
 
 /-! ### VarUInteger n -/
 /-- what `encVarUint` appends, and that `decVarUint` reads it back: for every byte length -/
